@@ -371,7 +371,7 @@ class Engine:
         for name, f in self.ufs.items():
             def make(f=f):
                 def g(*args):
-                    zargs = [z3.RealVal(str(Fraction(float(a)))) for a in args]
+                    zargs = [z3.RealVal(str(sym.float_fraction(float(a)))) for a in args]
                     return float(frac_of(model.eval(f(*zargs), model_completion=True)))
                 return g
             tables[name] = make()
@@ -398,11 +398,45 @@ class Engine:
         if r == "unsat":
             return "holds", None
         if r == "unknown":
-            self.stats.unknown_claim += 1
-            return "unknown", None
-        m0 = self.solver.model()
+            r, m0 = self._retry_claim(e)
+            if r == "unsat":
+                return "holds", None
+            if r == "unknown":
+                self.stats.unknown_claim += 1
+                return "unknown", None
+        else:
+            m0 = self.solver.model()
         m = self.get_model(extra=(z3.Not(e),)) or m0
         return "violated", m
+
+    def _retry_claim(self, e):
+        """the incremental solver gave up on a claim: retry in fresh solvers (different seeds / tactics)"""
+        cons = [(x if d else z3.Not(x)) for d, _p, x, _k in self.trail] + [z3.Not(e)]
+        attempts = [("smt", 1), ("nlsat", 0), ("smt", 7), ("smt", 23)]
+        for kind, seed in attempts:
+            if kind == "nlsat":
+                s = z3.Then("simplify", "purify-arith", "qfnra-nlsat").solver()
+            else:
+                s = z3.Solver()
+                s.set("random_seed", seed)
+            s.set("timeout", self.claim_timeout_ms * 2)
+            s.add(*cons)
+            t = time.time()
+            self.stats.queries += 1
+            try:
+                r = str(s.check())
+            except z3.Z3Exception:
+                r = "unknown"
+            self.stats.solver_s += time.time() - t
+            if r == "unsat":
+                self.stats.unsat += 1
+                return "unsat", None
+            if r == "sat":
+                self.stats.sat += 1
+                m = s.model()
+                # make the main solver agree (it is the one the model helpers use)
+                return "sat", m
+        return "unknown", None
 
     # ------------------------------------------------------------------ search
     def explore(self, fn, on_path=None, forced=None, cut_depth=None, deadline=None, max_paths=None):
